@@ -16,6 +16,21 @@ namespace Gotlcp.Spec.Stream
 def maxPlaintext : Nat := 16384
 def maxCiphertext : Nat := 16384 + 2048
 
+/-- record protection modes of TLCP and the least number of bytes each adds to a fragment
+(GB/T 38636 6.3.3: GCM = 8-byte explicit nonce + 16-byte tag; CBC = 16-byte IV + 32-byte
+HMAC-SM3 + 1..16 bytes of padding) -/
+inductive Mode where
+  | plain | gcm | cbc
+  deriving Repr, DecidableEq
+
+def maxExpansion : Mode → Nat
+  | .plain => 0
+  | .gcm => 8 + 16
+  | .cbc => 16 + 32 + 16
+
+/-- a protected fragment of `n` bytes carries at least this much plaintext -/
+def plainAtLeast (m : Mode) (n : Nat) : Nat := n - maxExpansion m
+
 def isPrefix : Bytes → Bytes → Bool
   | [], _ => true
   | _ :: _, [] => false
@@ -29,6 +44,7 @@ inductive REnd where
 structure Obs where
   writes : List Bytes
   returned : List Nat
+  mode : Mode
   wireLens : List Nat
   /-- plaintext length of every record, when the observer could see it -/
   plainLens : Option (List Nat)
@@ -42,6 +58,8 @@ def check (o : Obs) : Option (String × String) :=
     some ("write-len", s!"Write returned {o.returned} for writes of {o.writes.map (·.length)} bytes")
   else if o.wireLens.any (· > maxCiphertext) then
     some ("cipher-limit", s!"a record on the wire carries more than {maxCiphertext} bytes: {o.wireLens.filter (· > maxCiphertext)}")
+  else if o.wireLens.any (fun n => plainAtLeast o.mode n > maxPlaintext) then
+    some ("plain-limit", s!"a record on the wire carries more than {maxPlaintext} bytes of plaintext: protected lengths {o.wireLens.filter (fun n => plainAtLeast o.mode n > maxPlaintext)}")
   else if (o.plainLens.getD []).any (· > maxPlaintext) then
     some ("plain-limit", s!"a record carries more than {maxPlaintext} bytes of plaintext: {(o.plainLens.getD []).filter (· > maxPlaintext)}")
   else if o.plainLens.isSome && (o.plainLens.getD []).sum != sent.length then
@@ -53,5 +71,12 @@ def check (o : Obs) : Option (String × String) :=
   else if o.reads.any (fun r => r.2 == .eof) && got != sent then
     some ("early-eof", s!"end-of-stream reported after {got.length} of {sent.length} bytes")
   else none
+
+/-- the hook-level clause: every answer of `maxPayloadSizeForWrite` must let the split loop make
+progress and keep the record within the plaintext limit -/
+def checkMaxPayload (answers : List Int) : Option (String × String) :=
+  match answers.find? (fun x => x ≤ 0 || x > (maxPlaintext : Int)) with
+  | some x => some ("max-payload", s!"maxPayloadSizeForWrite answered {x}, outside 1..{maxPlaintext}")
+  | none => none
 
 end Gotlcp.Spec.Stream
